@@ -34,16 +34,38 @@ fn operand(o: &Value, mode: Ends) -> String {
     format!("{l}{}..{}{h}", if lox { "<" } else { "" }, if hix { "<" } else { "" })
 }
 
-fn expr(c: &Value, mode: Ends) -> String {
+/// is the last operand of this case written as a contained subtype, INCLUDES Ti<k>, with Ti<k> ::= INTEGER (lo..hi) declared
+/// next to the case?  The spelling permits the same values as the range written out; every third eligible INTEGER case uses it.
+pub fn contained(k: usize, c: &Value) -> Option<String> {
+    let os = c["os"].as_array().unwrap();
+    let which = contained_index(k, c);
+    let o = &os[which];
+    let closed = !o["lox"].as_bool().unwrap() && !o["hix"].as_bool().unwrap();
+    let pos = c["pos"].as_str().unwrap();
+    (c["ty"] == "INTEGER" && matches!(pos, "assignment" | "component" | "refcomp") && k % 3 == 2 && os.len() >= 2 && closed)
+        .then(|| format!("Ti{k} ::= INTEGER ({})", operand(o, Ends::Literal)))
+}
+
+/// the operand that is written as contained subtype: the first or the last one, alternating
+fn contained_index(k: usize, c: &Value) -> usize {
+    if k % 6 == 5 { 0 } else { c["os"].as_array().unwrap().len() - 1 }
+}
+
+fn expr(k: usize, c: &Value, mode: Ends) -> String {
     let os = c["os"].as_array().unwrap();
     let ps = c["ps"].as_array().unwrap();
-    let mut s = operand(&os[0], mode);
+    let inc = contained(k, c).map(|_| contained_index(k, c));
+    let mut s = if inc == Some(0) { format!("INCLUDES Ti{k}") } else { operand(&os[0], mode) };
     for (i, p) in ps.iter().enumerate() {
         let op = match p.as_str().unwrap() {
             "u" => "|",
             "i" => "^",
             _ => "EXCEPT",
         };
+        if inc == Some(i + 1) {
+            s = format!("{s} {op} INCLUDES Ti{k}");
+            continue;
+        }
         s = format!("{s} {op} {}", operand(&os[i + 1], mode));
     }
     if c["ext"].as_bool().unwrap() && !c["extout"].as_bool().unwrap_or(false) {
@@ -53,13 +75,27 @@ fn expr(c: &Value, mode: Ends) -> String {
 }
 
 /// the constraints of the series as text, one per element
-fn series(c: &Value, mode: Ends, size: bool) -> Vec<String> {
+/// is the set operation of this case written between SIZE constraints, (SIZE(a) | SIZE(b)), rather than inside one,
+/// (SIZE(a | b))?  The two spellings permit the same sizes; the harness writes every other eligible case the outer way.
+pub fn outer_size(k: usize, c: &Value, size: bool) -> bool {
+    size && k % 2 == 1 && !c["ps"].as_array().unwrap().is_empty() && !c["ext"].as_bool().unwrap() && !c["extout"].as_bool().unwrap_or(false)
+}
+
+fn series(k: usize, c: &Value, mode: Ends, size: bool) -> Vec<String> {
     let wrap = |e: String| if size { format!("(SIZE({e}))") } else { format!("({e})") };
-    let mut v = vec![if c["extout"].as_bool().unwrap_or(false) {
+    let mut v = vec![if outer_size(k, c, size) {
+        let os = c["os"].as_array().unwrap();
+        let mut s = format!("SIZE({})", operand(&os[0], mode));
+        for (i, p) in c["ps"].as_array().unwrap().iter().enumerate() {
+            let op = match p.as_str().unwrap() { "u" => "|", "i" => "^", _ => "EXCEPT" };
+            s = format!("{s} {op} SIZE({})", operand(&os[i + 1], mode));
+        }
+        format!("({s})")
+    } else if c["extout"].as_bool().unwrap_or(false) {
         // marker on the element-set level, after the SIZE element
-        format!("(SIZE({}), ...)", expr(c, mode))
+        format!("(SIZE({}), ...)", expr(k, c, mode))
     } else {
-        wrap(expr(c, mode))
+        wrap(expr(k, c, mode))
     }];
     for s in c["ser"].as_array().unwrap() {
         let mut e = operand(&s["o"], mode);
@@ -87,9 +123,10 @@ fn render(k: usize, c: &Value) -> String {
         "namednum" | "nnref" => Ends::NamedNum(k),
         _ => Ends::Literal,
     };
-    let cs = series(c, mode, size);
+    let cs = series(k, c, mode, size);
     let all = cs.join(" ");
-    match pos {
+    let helper = contained(k, c).map(|h| h + "\n").unwrap_or_default();
+    helper + &match pos {
         "assignment" | "valref" => format!("Tp{k} ::= {}", typed(ty, &all)),
         "namednum" => format!(
             "Tp{k} ::= INTEGER {{ nn{k}xm3(-3), nn{k}x0(0), nn{k}x2(2), nn{k}x5(5), nn{k}x9(9) }} {all}"
@@ -106,6 +143,7 @@ fn render(k: usize, c: &Value) -> String {
             format!("Aad{k} ::= {}\nTq{k} ::= {}\nZzd{k} ::= {}\nTp{k} ::= Tq{k} {all}", nn(40), nn(0), nn(70))
         }
         "component" => format!("Tp{k} ::= SEQUENCE {{ f {} }}", typed(ty, &all)),
+        "refcomp" => format!("Tq{k} ::= {ty}\nTp{k} ::= SEQUENCE {{ f Tq{k} {all} }}"),
         "typeref" => format!("Tq{k} ::= {}\nTp{k} ::= Tq{k} {}", typed(ty, &cs[0]), cs[1..].join(" ")),
         other => panic!("position {other}"),
     }
@@ -165,6 +203,8 @@ fn chain(krate: &rsproj::RCrate, ty: &str, key: &str, out: &mut Vec<Value>, dept
 fn observe(k: usize, c: &Value, text: &str, o: &run::Outcome, krate: &rsproj::RCrate, solo: bool) -> Value {
     let mut ev = c.clone();
     ev["ev"] = json!("pv");
+    ev["outer_size"] = json!(outer_size(k, c, c["ty"] != "INTEGER"));
+    ev["contained"] = json!(contained(k, c).is_some());
     ev["k"] = json!(k);
     ev["asn"] = json!(text);
     ev["status"] = json!(o.status);
@@ -193,7 +233,7 @@ fn observe(k: usize, c: &Value, text: &str, o: &run::Outcome, krate: &rsproj::RC
         return ev;
     };
     let mut out = vec![];
-    if c["pos"] == "component" {
+    if c["pos"] == "component" || c["pos"] == "refcomp" {
         match item.fields.iter().find(|f| f.name == "f") {
             Some(f) => {
                 annotations(&f.attrs, key, &mut out);
